@@ -42,14 +42,17 @@ def trimSpace (s : String) : String :=
 def isAlnum (c : Char) : Bool :=
   ('a' ≤ c && c ≤ 'z') || ('A' ≤ c && c ≤ 'Z') || ('0' ≤ c && c ≤ '9')
 
+def isDigitCh (c : Char) : Bool := '0' ≤ c && c ≤ '9'
+
 /-- `tools.UpperCamelCase` on ASCII: runs of characters outside `[a-zA-Z0-9 ]` become a space,
-    `cases.Title(NoLower)` upper-cases the first letter of every word (a word starts after a
-    space; a digit starts a word and leaves the following letter alone), spaces are removed,
-    the first character is lower-cased and upper-cased again. -/
+    `cases.Title(NoLower)` upper-cases the first LETTER of every word (words are separated by
+    spaces; digits in front of that letter are skipped), spaces are removed, the first
+    character is lower-cased and upper-cased again.  `pending` = no letter seen yet in the word. -/
 def upperCamelAux : Bool → List Char → List Char
   | _, [] => []
-  | atStart, c :: cs =>
-    if isAlnum c then (if atStart then c.toUpper else c) :: upperCamelAux false cs
+  | pending, c :: cs =>
+    if isDigitCh c then c :: upperCamelAux pending cs
+    else if isAlnum c then (if pending then c.toUpper else c) :: upperCamelAux false cs
     else upperCamelAux true cs
 
 def upperCamelCase (s : String) : String :=
